@@ -207,7 +207,7 @@ class JniFunction(JniBaseType):
     def routine_name(self) -> str: return routine_name(self.decl.return_type_ref)
 
     @cached_property
-    def type_signature(self) -> str: return type_signature(self.decl.parameters, self.decl.return_type_ref)
+    def invoke_type_signature(self) -> str: return type_signature(self.decl.parameters, self.decl.return_type_ref)
 
     @cached_property
     def return_type_spec(self) -> str:
